@@ -69,6 +69,8 @@ def conflicts(func, cross=True):
         for nm, val in pairs:
             if isinstance(val, ast.Constant) and isinstance(val.value, str):
                 continue  # a label stored as data (`leg_end = "lower"`), not an ingredient of a computation
+            if isinstance(val, ast.BinOp) and isinstance(val.op, ast.Sub) and isinstance(val.left, ast.Constant) and isinstance(val.right, ast.Name):
+                continue  # the complement of the other side's index (`upper_ind = 1 - lower_ind`): meant to use the other side
             for vocab in (("both",) if cross else ("lu", "se")):
                 s = side(nm, vocab)
                 if not s:
@@ -113,6 +115,8 @@ def mixed(func, cross=True):
         for nm, val in pairs:
             if isinstance(val, ast.Constant) and isinstance(val.value, str):
                 continue  # a label stored as data (`leg_end = "lower"`), not an ingredient of a computation
+            if isinstance(val, ast.BinOp) and isinstance(val.op, ast.Sub) and isinstance(val.left, ast.Constant) and isinstance(val.right, ast.Name):
+                continue  # the complement of the other side's index (`upper_ind = 1 - lower_ind`): meant to use the other side
             for vocab in (("both",) if cross else ("lu", "se")):
                 s = side(nm, vocab)
                 if not s:
